@@ -77,7 +77,7 @@ def oracle_slice(ctx, a, b, c, n, res):
     case = {'op': 'slice', 'start': a, 'stop': b, 'step': c, 'n': n}
     ctx.count('oracle_cases')
     if res is None:
-        ctx.fail(case, 'Slice raised for a positive step'); return
+        ctx.fail(case, 'Slice raised for a non-zero step'); return
     idx, gen, count, first, step = res
     want = list(range(n))[a:b:c]
     if idx != want:
@@ -156,7 +156,9 @@ def run(ctx):
     # ---------------- slices: exhaustive small scope
     N = ctx.n(9, 20)
     vals = [None] + list(range(-(N + 2), N + 3))
-    steps = [None] + list(range(1, N + 3))
+    # negative steps are outside C15's stated quantifier (step in 1..N) but are what Python slicing allows and what the
+    # users of Slice (C04, C11) can be handed: they are oracle-checked too, on a smaller grid
+    steps = [None] + list(range(1, N + 3)) + [-1, -2, -3, -(N + 1)]
     req, cases = [], []
     for n in range(0, N + 1):
         for a in vals:
@@ -186,7 +188,7 @@ def run(ctx):
     for k, ((a, b, c, n), m) in enumerate(zip(allc, model)):
         out, res = impl_slice(S, a, b, c, n)
         ctx.corr('slice', {'op': 'slice', 'start': a, 'stop': b, 'step': c, 'n': n}, out, m)
-        if c is None or c >= 1:
+        if c is None or c != 0:
             oracle_slice(ctx, a, b, c, n, res)
     ctx.extra['exhaustive'] = True
     ctx.extra['exhaustive_scope'] = f'slice: n<=%d, start/stop in -%d..%d or None, step in 1..%d or None (%d cases)' % (N, N + 2, N + 2, N + 2, len(cases))
